@@ -54,6 +54,53 @@ pub fn check_case(case: &CodecCase) -> CaseResult {
         .label_if(plain.len() >= 252 + 64008, "payload>=64260"))
 }
 
+/// Two encoders alive at once, started from an iovec and from its clone and fed alternately
+/// with different inputs: what one is fed must not show in the other's output.
+pub fn check_interleaved(case: &CodecCase) -> CaseResult {
+    use hcobs::Encoder;
+    use owning_iovec::OwningIovec;
+    let p = case.payload.bytes();
+    let q: Vec<u8> = p.iter().rev().map(|b| b.wrapping_add(1)).chain([0xFE, 0xFD, 0x51]).collect();
+    let pre = &case.pre.0;
+    let mut first = OwningIovec::new();
+    first.push_copy(pre);
+    let second = first.clone();
+    let mut a = Encoder::new_from_iovec(first);
+    let mut b = Encoder::new_from_iovec(second);
+    let cuts_p = crate::engine::bytespec::resolve_cuts(&case.enc.cuts, p.len(), &codec::plain_interesting(&p));
+    let cuts_q = crate::engine::bytespec::resolve_cuts(&case.dec.cuts, q.len(), &codec::plain_interesting(&q));
+    let pieces_p = crate::engine::bytespec::split_at_cuts(&p, &cuts_p);
+    let pieces_q = crate::engine::bytespec::split_at_cuts(&q, &cuts_q);
+    for i in 0..pieces_p.len().max(pieces_q.len()) {
+        if let Some(piece) = pieces_p.get(i) {
+            if i % 2 == 0 {
+                a.encode_copy(piece);
+            } else {
+                a.encode(piece);
+            }
+        }
+        if let Some(piece) = pieces_q.get(i) {
+            if i % 3 == 0 {
+                b.encode(piece);
+            } else {
+                b.encode_copy(piece);
+            }
+        }
+    }
+    let out_a = a.finish().flatten().map_err(|_| Fail::new("interleaved:pending", "placeholder pending after finish".to_string()))?;
+    let out_b = b.finish().flatten().map_err(|_| Fail::new("interleaved:pending", "placeholder pending after finish".to_string()))?;
+    for (name, out, plain) in [("first", &out_a, &p), ("second", &out_b, &q)] {
+        let want: Vec<u8> = [&pre[..], &hcobs_ref::encode(plain, hcobs_ref::LIMIT_FIRST, hcobs_ref::LIMIT_LATER)[..]].concat();
+        if *out != want {
+            return Err(Fail::new(
+                "interleaved:output",
+                codec::mismatch(&format!("two encoders started from an iovec and its clone and fed alternately: output of the {name} one"), out, &want),
+            ));
+        }
+    }
+    Ok(Outcome::new(pieces_p.len() >= 2 && pieces_q.len() >= 2).label_if(!pre.is_empty(), "common_prefix"))
+}
+
 /// Length sweep: the bound is checked for every length in a range, for
 /// three fillings (stuff-free, all FE, FE FD pairs).
 #[derive(Clone, Debug, Serialize, Deserialize)]
@@ -127,11 +174,15 @@ pub fn run(ctx: &Ctx, rep: &mut Report) {
     engine::drive(ctx, rep, "random-large", codec::codec_case(true), cases, check_case);
     let cases = ctx.share(ctx.tier.pick(24_000, 320_000));
     engine::drive(ctx, rep, "power-of-two-aligned", codec::aligned_case(), cases, check_case);
+    let cases = ctx.share(ctx.tier.pick(20_000, 400_000));
+    engine::drive(ctx, rep, "interleaved-encoders", codec::codec_case(false), cases, check_interleaved);
 }
 
 fn replay(_ctx: &Ctx, group: &str, case: &Value) -> CaseResult {
     if group.starts_with("small-scope") {
         hcobs_small::check_small_enc(&parse_case::<SmallEnc>(case)?, Focus::StuffFreeAndSplitIndependent)
+    } else if group == "interleaved-encoders" {
+        check_interleaved(&parse_case::<CodecCase>(case)?)
     } else if group == "length-sweep" {
         check_len(&parse_case::<LenCase>(case)?)
     } else {
@@ -142,7 +193,7 @@ fn replay(_ctx: &Ctx, group: &str, case: &Value) -> CaseResult {
 pub fn def() -> PropDef {
     PropDef {
         id: "C02",
-        rule: "Same case type and generators as C01 (payload description + encoder feeding plan with cuts, input methods and drain actions), plus a generator that places FE FD across the last position of the 252-byte and 64008-byte chunks, plus the power-of-two-aligned group (FE FD after gaps of k*2^p-1+d bytes, p = 6..16, counted from the input start, the end of the 252-byte chunk or the previous stuff sequence; half of the cases fed in one call), plus a complete length sweep 0..600 and 252+k*64008+{-2..2} with three fillings. Scripted readers behind encode_read deliver short reads, Interrupted errors and (one step in nine) a hard error; the input bytes sit at an address 0..15 modulo 16. Oracles: (0) hcobs::find_stuff_sequence returns the first FE FD of the input, (a) no FE FD anywhere in early-drained ++ finish() bytes, (b) those bytes equal the output of one encode_copy call on a fresh Encoder, (c) length <= len + 1 + 2*ceil(len/64008). Non-trivial: >= 2 calls with >= 2 distinct input methods, or FE at the last position of a full chunk; for the sweep, length >= 252. Distinct: hash of the serialised case. The small-scope group enumerates all strings over {FE,FD,00} up to max_len x four tiny limit pairs x 2-way cuts x copy/borrow through the hcobs::verif hook.",
+        rule: "Same case type and generators as C01 (payload description + encoder feeding plan with cuts, input methods and drain actions), plus a generator that places FE FD across the last position of the 252-byte and 64008-byte chunks, plus the power-of-two-aligned group (FE FD after gaps of k*2^p-1+d bytes, p = 6..16, counted from the input start, the end of the 252-byte chunk or the previous stuff sequence; half of the cases fed in one call), plus a complete length sweep 0..600 and 252+k*64008+{-2..2} with three fillings. Scripted readers behind encode_read deliver short reads, Interrupted errors and (one step in nine) a hard error; the input bytes sit at an address 0..15 modulo 16. interleaved-encoders: two encoders alive at once, started from an iovec and its clone, fed alternately with the payload and a different byte string; each output must be the common prefix followed by the reference encoding of its own input. Oracles: (0) hcobs::find_stuff_sequence returns the first FE FD of the input, (a) no FE FD anywhere in early-drained ++ finish() bytes, (b) those bytes equal the output of one encode_copy call on a fresh Encoder, (c) length <= len + 1 + 2*ceil(len/64008). Non-trivial: >= 2 calls with >= 2 distinct input methods, or FE at the last position of a full chunk; for the sweep, length >= 252. Distinct: hash of the serialised case. The small-scope group enumerates all strings over {FE,FD,00} up to max_len x four tiny limit pairs x 2-way cuts x copy/borrow through the hcobs::verif hook.",
         assumptions: &["the single-call reference output is produced by the same Encoder (the comparison with an independent reference codec is C07)"],
         exhaustive_note: Some("small-scope-encoder and length-sweep: complete enumerations"),
         shards: |t: Tier| t.pick(8, 16),
